@@ -290,12 +290,12 @@ pub fn check(tier: Tier) -> Check {
             "both reference searches after bootstrap agree (checked in every run; otherwise the run gives no verdict)",
         ],
         deciding: vec!["C16"],
-        streams: vec![Stream::new("early", tier.pick(1500, 30_000), scenario)],
+        streams: vec![Stream::new("early", tier.pick(4_500, 30_000), scenario)],
         require: vec![
-            ("early_searches", tier.pick(3000, 60_000)),
-            ("early_searches_before_first_datagram", tier.pick(1000, 20_000)),
+            ("early_searches", tier.pick(9_000, 60_000)),
+            ("early_searches_before_first_datagram", tier.pick(3_000, 20_000)),
             ("early_searches_equal_to_reference", tier.pick(0, 0)),
-            ("runs_with_reference", tier.pick(1000, 20_000)),
+            ("runs_with_reference", tier.pick(3_000, 20_000)),
         ],
         exhaustive: false,
     }
